@@ -1601,6 +1601,24 @@ func genStartup(r *rand.Rand, id string) *Case {
 	if ssl {
 		in = append(in, startup(80877103, nil, false)...)
 	}
+	// a second (third) SSLRequest behind the refused one is not an encryption request any more but an invalid
+	// start-up packet: nothing further is sent, no callback runs, the connection is closed (C11)
+	if r.Intn(12) == 0 {
+		in = in[:0]
+		for i := 0; i < 2+r.Intn(2); i++ {
+			in = append(in, startup(80877103, nil, false)...)
+		}
+		if r.Intn(2) == 0 {
+			in = append(in, startup(196608, [][2]string{{"user", "u"}}, true)...)
+			in = append(in, msgQuery(probeQuery("AFTERSSL", 0))...)
+		}
+		c.In = in
+		c.Cuts = randCuts(r, len(in))
+		c.Extra["xpre"] = ""
+		c.Extra["xend"] = "c"
+		c.Extra["xnoev"] = "1"
+		return c
+	}
 	// cancel at a negotiation stage
 	if r.Intn(8) == 0 {
 		in = append(in, append(be32(16), append(be32(80877102), randBytes(r, 8, false)...)...)...)
